@@ -85,3 +85,29 @@ def stream_mix(r, nframes, maxlen=60):
         else:
             out += bytes([0xD3, 0x03, 0xFF]) + rand_bytes(r, r.randrange(0, 5)); kinds.add("long-header")
     return bytes(out), len(kinds)
+
+
+def stray_cases(r):
+    """short stray candidates directly in front of valid frames, with enough data behind them that the
+    stray candidate becomes complete (and is rejected by its checksum) instead of pending"""
+    out = []
+    for stray in (b"\xd3", b"\xd3\x00", b"\xd3\xd3", b"\xd3\x01", b"\xd3\x03", b"\xd3\x00\x05", b"\xd3\x03\xff",
+                  b"\xd3\x00\xd3", b"\x00\xd3", b"\xd3\xd3\xd3"):
+        f1 = mk_frame(payload_for(r, r.choice([0, 2, 19, 40]), r.choice(SUPPORTED)))
+        tail = b""
+        while len(tail) < r.choice([0, 230, 800, 1100]):
+            tail += mk_frame(payload_for(r, r.choice([100, 233, 700]), r.choice(SUPPORTED)))
+        out.append(stray + f1 + tail)
+        out.append(stray + f1 + rand_bytes(r, r.choice([0, 250, 1100])).replace(b"\xd3", b"\x00"))
+    return out
+
+
+def huge_cases(r):
+    """slices longer than 64 KiB / 128 KiB whose length modulo 2^16 is small"""
+    out = []
+    for L in (0, 3, 200, 1023):
+        f = mk_frame(payload_for(r, L, r.choice(SUPPORTED)))
+        for total in (65535, 65536, 65536 + L + 5, 65536 + L + 6, 65541, 131072 + 2):
+            if total > len(f):
+                out.append(f + bytes(total - len(f)))
+    return out
